@@ -417,6 +417,10 @@ def _check_table(ctx: RuleCtx, mod: Module, spec: Spec, tab: Table, what: str, o
                 if not _agree(got, want):
                     k = f'{what}: {_sem_txt(sem)}'
                     bad.setdefault(k, (r, got, want))
+    blind = sorted({m_ for _, (r, got, want) in bad.items() for t_ in [got.get('text', '')] + list(got.get('writes', [])) + list(got.get('adds', []))
+                    for m_ in re.findall(r'\{\?([^{}]*)', t_ or '')})
+    if blind:
+        raise Undecided(f'{spec.qn}: {what}: operand(s) {blind} of the rendered text have no known role (helper the tables do not look into?)')
     for k, (r, got, want) in bad.items():
         node = r.path.events[-1].node if r.path.events else None
         ctx.violation(mod, spec.qn, f'rendering: {k}', f'{k}: the code gives [{_fmt(got)}] (row `{r!r}`); documented: [{_fmt(want)}]'[:900], node or mod.func(spec.qn))
@@ -826,7 +830,7 @@ def r3(ctx: RuleCtx) -> None:
     if len(line) != 1:
         raise Undecided(f'{qn}: cannot identify the line parameter')
     ln = line[0]
-    nested = {q.split('.')[-1] for q in mod.funcs() if q.startswith(qn + '.')}
+    rhs_calls: T.Dict[str, ast.Call] = {}       # resolved helper -> one (closed) call of it inside a returned text
 
     def extra_cm(a: Atom, v: bool) -> T.Any:
         if a.kind == 'in' and a.args[1] == ln:
@@ -839,8 +843,12 @@ def r3(ctx: RuleCtx) -> None:
 
     def role_cm(op: shape.Op) -> T.Optional[str]:
         n = op.node
-        if isinstance(n, ast.Call) and isinstance(n.func, ast.Name) and n.func.id in nested:
-            return 'RHS'
+        if isinstance(n, ast.Call) and isinstance(n.func, ast.Name):
+            q = mod.has_func(f'{qn}.{n.func.id}') and f'{qn}.{n.func.id}' or (mod.has_func(n.func.id) and n.func.id) or None
+            # the helper that renders the right-hand side: a function of this module that is given the line
+            if q and q not in scans and any(isinstance(a, ast.Name) and a.id == ln for a in n.args):
+                rhs_calls.setdefault(q, n)
+                return 'RHS'
         return None
 
     def ref_cd(sem: T.Dict[str, T.Any]) -> T.Optional[T.Dict[str, T.Any]]:
@@ -858,8 +866,9 @@ def r3(ctx: RuleCtx) -> None:
     calls = [c for c in ast.walk(fn) if isinstance(c, ast.Call) and norm(c.func) == 'FeatureNew.single_use']
     ctx.note(f'do_define_cmake: {len(calls)} FeatureNew notice(s) ignored')
     # the right-hand side: 01 -> 1/0 by truth; otherwise the remaining tokens, each replaced by its value when set, joined by one blank
-    for q2 in sorted(q for q in mod.funcs() if q.startswith(qn + '.')):
-        total += _cmake_rhs(ctx, mod, q2, qn, ln)
+    ctx.floor('do_define_cmake: helper rendering the right-hand side', len(rhs_calls), 1)
+    for q2 in sorted(rhs_calls):
+        total += _cmake_rhs(ctx, mod, q2, qn, ln, rhs_calls[q2])
 
     # generated header
     total += _header_forms(ctx, mod)
@@ -872,18 +881,31 @@ def r3(ctx: RuleCtx) -> None:
                 'the rendering tables assume get() indexes the dict (raising KeyError for an unset name)')
 
 
-def _cmake_rhs(ctx: RuleCtx, mod: Module, qn: str, outer: str, ln: str) -> int:
+def _cmake_rhs(ctx: RuleCtx, mod: Module, qn: str, outer: str, ln: str, call: ast.Call) -> int:
     fn = mod.func(qn)
-    confs = _confs(mod, qn)
+    confs = _confs(mod, qn) | _confs(mod, outer)
     ofn = mod.func(outer)
-    base = shape.PathEnv()
-    for st in ofn.body:
-        if isinstance(st, (ast.Assign, ast.AnnAssign)):
-            base.stmt(st)
-        elif isinstance(st, (ast.FunctionDef,)):
-            break
-    params = {a.arg for a in fn.args.args}
-    tab = shape.table(fn, handlers=True, unroll=1, name=qn, base={k: v for k, v in base.env.items() if k not in params})
+    env: T.Dict[str, ast.AST] = {}
+    if qn.startswith(outer + '.'):
+        # a closure: its free variables are the straight-line bindings of the enclosing function
+        base = shape.PathEnv()
+        for st in ofn.body:
+            if isinstance(st, (ast.Assign, ast.AnnAssign)):
+                base.stmt(st)
+            elif isinstance(st, (ast.FunctionDef,)):
+                break
+        env.update(base.env)
+    # parameters are replaced by the (closed) arguments of the call in the define transformer
+    names = [a.arg for a in fn.args.posonlyargs + fn.args.args]
+    for nm in names:
+        env.pop(nm, None)
+    if len(call.args) > len(names) or any(isinstance(a, ast.Starred) for a in call.args) or any(k.arg is None or k.arg not in names for k in call.keywords):
+        raise Undecided(f'{qn}: cannot bind the arguments of `{short(call)}`')
+    for nm, a in zip(names, call.args):
+        env[nm] = a
+    for k in call.keywords:
+        env[T.cast(str, k.arg)] = k.value
+    tab = shape.table(fn, handlers=True, unroll=1, name=qn, base=env)
     n = 0
     seen01 = False
     loop_rows = 0
@@ -908,6 +930,12 @@ def _cmake_rhs(ctx: RuleCtx, mod: Module, qn: str, outer: str, ln: str) -> int:
         # ' '.join(tokens)
         v = r.value
         if not (isinstance(v, ast.Call) and isinstance(v.func, ast.Attribute) and v.func.attr == 'join' and len(v.args) == 1):
+            spec = Spec(qn, confs, lambda s: None)
+            forms = {_text(spec, {'truthy': t_, 'type': 'other'}, v) for t_ in (True, False)}
+            if forms == {'{VALUE|bool|int}'} or forms == {'1', '0'}:
+                ctx.violation(mod, qn, 'rendering: cmakedefine right-hand side is the 0/1 form', f'for a plain #cmakedefine (not 01) the right-hand side is `{short(v)}`: '
+                              'the 0/1 form of #cmakedefine01; documented: the remaining tokens of the line', r.path.events[-1].node)
+                continue
             raise Undecided(f'{qn}: non-01 row returns `{short(v)}`, not a join')
         ctx.require(isinstance(v.func.value, ast.Constant) and v.func.value.value == ' ', f'{qn}: tokens joined by one blank', mod, qn, v.func.value,
                     f'the tokens of the right-hand side are joined by {norm(v.func.value)}', r.path.events[-1].node)
@@ -1103,9 +1131,19 @@ def _line_loop(ctx: RuleCtx, mod: Module, qn: str) -> T.Set[str]:
                 c = st.value
                 recv = norm(c.func.value)  # type: ignore[attr-defined]
                 if recv == res_name and c.func.attr == 'append':  # type: ignore[attr-defined]
-                    if len(c.args) != 1 or not isinstance(c.args[0], ast.Name) or c.args[0].id not in chain:
+                    a0 = c.args[0] if len(c.args) == 1 else None
+                    if isinstance(a0, ast.Name) and a0.id in chain:
+                        appended.append((a0.id, chain[a0.id]))
+                    elif isinstance(a0, ast.Call) and isinstance(a0.func, ast.Name) and mod.has_func(a0.func.id) and \
+                            len([x for x in a0.args if isinstance(x, ast.Name) and x.id in chain]) == 1 and not a0.keywords:
+                        # append(transformer(line, ..)): the transformer's result is appended directly
+                        src_nm = [x.id for x in a0.args if isinstance(x, ast.Name) and x.id in chain][0]
+                        if mod.func(a0.func.id).returns is not None and norm(mod.func(a0.func.id).returns) != 'str':
+                            raise Undecided(f'{qn}: `{short(c)}` appends the result of {a0.func.id}, which is not annotated to return a str')
+                        used.add(a0.func.id)
+                        appended.append((src_nm, chain[src_nm] + [a0.func.id]))
+                    else:
                         raise Undecided(f'{qn}: `{short(c)}` appends something that is not the line variable')
-                    appended.append((c.args[0].id, chain[c.args[0].id]))
                 elif recv == miss_name and c.func.attr == 'update' and len(c.args) == 1 and isinstance(c.args[0], ast.Name):  # type: ignore[attr-defined]
                     updated.append(c.args[0].id)
         if len(appended) != 1:
